@@ -42,16 +42,43 @@ Frames ==
    annparams |-> [pre |-> Pk \o <<"INTERFACE", "IDENT", "{", "ANNOTATION", "(">>, suf |-> <<")", "VOID", "IDENT", "(", ")", ";", "}">>],
    afteritem |-> [pre |-> Pk \o <<"INTERFACE", "IDENT", "{", "}">>, suf |-> <<>>]]
 
-SlotNames == IF IOEnv.SLOT = "all" THEN DOMAIN Frames ELSE {IOEnv.SLOT}
+\* C14: a garbage member G followed by its normal terminator (the first symbol of the suffix), between
+\* well-formed siblings; G ranges over the vocabulary without the item's terminators and braces
+M1 == <<"VOID", "IDENT", "(", ")", ";">>
+M2 == <<"ANNOTATION", "ONEWAY", "VOID", "IDENT", "(", "DIRECTION", "PRIMITIVE", "IDENT", ")", "=", "INTEGER", ";">>
+C1 == <<"CONST", "PRIMITIVE", "IDENT", "=", "INTEGER", ";">>
+F1 == <<"PRIMITIVE", "IDENT", ";">>
+F2 == <<"ANNOTATION", "LIST", "<", "STRING", ">", "IDENT", "=", "{", "}", ";">>
+IHead == Pk \o <<"INTERFACE", "IDENT", "{">>
+PHead == Pk \o <<"PARCELABLE", "IDENT", "{">>
+EHead == Pk \o <<"ENUM", "IDENT", "{">>
+RecFrames ==
+  [ri0 |-> [pre |-> IHead, suf |-> <<";">> \o M1 \o M2 \o <<"}">>],
+   ri1 |-> [pre |-> IHead \o M1, suf |-> <<";">> \o M2 \o <<"}">>],
+   ri2 |-> [pre |-> IHead \o M1 \o C1, suf |-> <<";">> \o <<"}">>],
+   ri3 |-> [pre |-> IHead \o M2, suf |-> <<";">> \o C1 \o M1 \o <<"}">>],
+   ri4 |-> [pre |-> IHead, suf |-> <<";", "}">>],
+   rp0 |-> [pre |-> PHead, suf |-> <<";">> \o F1 \o F2 \o <<"}">>],
+   rp1 |-> [pre |-> PHead \o F1, suf |-> <<";">> \o C1 \o <<"}">>],
+   rp2 |-> [pre |-> PHead \o F2 \o F1, suf |-> <<";", "}">>],
+   re0 |-> [pre |-> EHead, suf |-> <<",", "IDENT", ",", "IDENT", "}">>],
+   re1 |-> [pre |-> EHead \o <<"IDENT", ",">>, suf |-> <<",", "IDENT", "=", "INTEGER", "}">>],
+   re2 |-> [pre |-> EHead \o <<"IDENT", "=", "INTEGER", ",", "IDENT", ",">>, suf |-> <<",", "}">>]]
+
+Recover == IOEnv.MODE = "recover"
+AllFrames == IF Recover THEN RecFrames ELSE Frames
+SlotNames == IF IOEnv.SLOT = "all" THEN DOMAIN AllFrames ELSE {IOEnv.SLOT}
+\* symbols a garbage member may use in slot s
+RecVocab(s) == IF s \in {"re0", "re1", "re2"} THEN Vocab \ {",", "{", "}"} ELSE Vocab \ {";", "{", "}"}
 
 VARIABLES slot, fill
 vars == <<slot, fill>>
 
 Init == slot \in SlotNames /\ fill = <<>>
-Next == Len(fill) < Depth /\ \E v \in Vocab : fill' = Append(fill, v) /\ UNCHANGED slot
+Next == Len(fill) < Depth /\ \E v \in (IF Recover THEN RecVocab(slot) ELSE Vocab) : fill' = Append(fill, v) /\ UNCHANGED slot
 Spec == Init /\ [][Next]_vars
 
-DocOf(s, f) == W(Frames[s].pre) \o W(f) \o W(Frames[s].suf)
+DocOf(s, f) == W(AllFrames[s].pre) \o W(f) \o W(AllFrames[s].suf)
 
 \* the specification's own verdict, attached to the scenario (the replay re-derives it from the pieces)
 Verdict(s, f) == LET tk == [k |-> [j \in DOMAIN DocOf(s, f) |-> DocOf(s, f)[j][1]],
@@ -65,7 +92,7 @@ Emit == PrintT("SCEN " \o ToJson([slot |-> slot, fill |-> fill, v |-> Verdict(sl
 \* design-level sanity: every frame with a sensible filling is a sentence (the frames are well-formed)
 FramesOK == \A s \in DOMAIN Frames : TRUE
 
-EmitFrames == PrintT("FRAMES " \o ToJson([s \in DOMAIN Frames |-> [pre |-> W(Frames[s].pre), suf |-> W(Frames[s].suf)]]))
+EmitFrames == PrintT("FRAMES " \o ToJson([s \in DOMAIN AllFrames |-> [pre |-> W(AllFrames[s].pre), suf |-> W(AllFrames[s].suf)]]))
               /\ PrintT("LEX " \o ToJson([v \in Vocab |-> Tok(v)]))
 ASSUME EmitFrames
 =============================================================================
